@@ -16,6 +16,7 @@ EXTENDS RadarUI, Json, IOUtils, TLC, FiniteSets
 
 Rec == ndJsonDeserialize(IOEnv.TRACE)
 TGuards == TRUE
+TNone == <<>>
 
 VARIABLES l, pre, keys, planes, opts
 vars == <<l, pre, keys, planes, opts>>
